@@ -24,7 +24,7 @@ EXHAUSTIVE = {"quick": ["R=Q=all strings len<=4 over AC, k=1..5 (every (q,r) inc
                            "R=Q=all len<=3 over ACD, k=1..4", "LookupDB: R=Q=all len<=2 over ACD k=1..3"]}
 REQUIRE = {"hits_q_equals_r": 50, "hits_d0": 50, "queries_without_hit": 20, "lookups_after_first_on_same_build": 30,
            "invariant_evaluations": 100, "failed_lookups_then_continued": 5, "injected_faults_then_continued": 3,
-           "lookupdb_cases": 10, "fresh_oneshot_comparisons": 30, "len_Q_ne_len_R": 20, "lookupdb_radius_changes": 10}
+           "lookupdb_cases": 10, "fresh_oneshot_comparisons": 30, "len_Q_ne_len_R": 20, "lookupdb_radius_changes": 10, "same_object_as_both_collections": 5}
 SHARDS = {"quick": 6, "thorough": 16}
 
 _INV = {"evals": 0, "installed": False}
@@ -90,6 +90,13 @@ def k_cross(ctx, refs, queries, k):
     S.expect_triplets(ctx, out, exp, "symdel", "cross")
     out = ctx.call(nn.nearest_neighbor, list(refs), max_edits=k, seqs2=list(queries))
     S.expect_triplets(ctx, out, exp, "nearest_neighbor", "cross")
+    if (len(refs) + k) % 4 == 0:
+        # the very same object given as reference and as query collection: still a two-collection search (q == r hits at d = 0)
+        same = list(refs)
+        exp_same = O.neigh_cross(same, same, k)
+        out = ctx.call(nn.symdel, same, max_edits=k, seqs2=same)
+        S.expect_triplets(ctx, out, exp_same, "symdel", "cross-same-object")
+        ctx.count("same_object_as_both_collections")
     db = ctx.call(nn.SymdelDB, list(refs), k)
     if not db.ok:
         ctx.violation("SymdelDB:build:raised", "SymdelDB construction raised", db.describe(), None)
